@@ -45,7 +45,9 @@ Problems(req) ==
       \cup (IF req.method # "GET" THEN {405} ELSE {})
       \cup (IF req.host \notin Good \/ req.upgrade \notin Good \/ req.connection \notin Good THEN {400} ELSE {})
       \cup (IF req.wsversion = "absent" THEN {400} ELSE {})
-      \cup (IF req.wsversion \in {"wrong", "other", "lead0"} THEN {426} ELSE {})
+      \* ("contra": a line saying 13 and a line saying another version, in either order - the request does
+      \*  not carry "Sec-WebSocket-Version: 13" but two contradicting claims)
+      \cup (IF req.wsversion \in {"wrong", "other", "lead0", "contra"} THEN {426} ELSE {})
       \* ("latebad" / "earlybad": a valid key plus another Sec-WebSocket-Key line that is not 24 characters
       \*  long, after / before all other headers - a key that is not 24 characters long is always refused)
       \cup (IF req.key \in {"absent", "len23", "len25", "empty", "latebad", "earlybad"} THEN {400} ELSE {})
